@@ -26,6 +26,8 @@ def run(ctx):
         {"kind": "std", "model": "G3", "seed": ctx.seed, "kwargs": {"shrinkage_expectation": "t"}, "resume": "every"},
     ]
     cfgs += runs.ins_lattice(ctx.seed, True if ctx.quick else False, resume_subsets=True)
+    # plus every valid single option value of the C20 alphabet, both samplers
+    cfgs += runs.option_sweep("std", ctx.seed) + runs.option_sweep("ins", ctx.seed)
     keys = set()
     capped = 0
     for cfg, res in ctx.pmap(worker, cfgs):
@@ -39,11 +41,13 @@ def run(ctx):
         if res.get("finalised") is False:
             capped += 1
         keys.add((res["key"], str(cfg.get("kill_at"))))
-        for clause, detail in res["errs"][:2]:
+        if cfg.get("sweep"):
+            ctx.count("runs_from_the_option_sweep")
+        for clause, detail in runs.sweep_errs(cfg, res["errs"])[:2]:
             ctx.violation(f"{clause}@{res['key']}", f"{clause}: {detail} (config {cfg})", {"cfg": cfg})
     ctx.set("runs_cut_by_iteration_cap", capped)
     ctx.set("distinct_nontrivial", len(keys))
-    ctx.set("rule", "standard-sampler lattice (default + single deviations over proposal class, latent prior, reparameterisation, flow type, shrinkage, nlive, caps; thorough: + resume-at-every-checkpoint for each and two seeds) and INS lattice (quick: single deviations; thorough: full product) x resume histories {none, once, every checkpoint, every subset for the INS default}. Distinct/non-trivial: distinct (configuration, resume history) pairs that completed and were recomputed")
+    ctx.set("rule", "standard-sampler lattice (default + single deviations over proposal class, latent prior, reparameterisation, flow type, shrinkage, nlive, caps; thorough: + resume-at-every-checkpoint for each and two seeds) and INS lattice (quick: single deviations; thorough: full product) x resume histories {none, once, every checkpoint, every subset for the INS default}; plus every valid single option value of the C20 option alphabet for both samplers (about 240 more configurations). Distinct/non-trivial: distinct (configuration, resume history) pairs that completed and were recomputed")
     ctx.set("exhaustive", True)
     ctx.sample({"config": cfgs[0], "recomputed": ["logZ (trapezoid, mpmath)", "information recursion", "sqrt(H/nlive)", "log posterior weights", "sample count", "logL/logP from the model", "birth logL", "posterior samples are rows"]})
     ctx.assume(
